@@ -39,7 +39,8 @@ fn s_free_line(sess: &Session) -> u64 {
     let lines = sess.snapshot().map_lines;
     let mut n = lines.last().copied().unwrap_or(10).saturating_add(7);
     while lines.contains(&n) {
-        n = n.saturating_add(1);
+        // (the last line can be u64::MAX: search downwards then)
+        n = if n == u64::MAX { 5 } else { n + 1 };
     }
     n
 }
@@ -58,10 +59,30 @@ fn printed(outs: &[Out]) -> String {
     outs.iter().filter_map(|o| if let Out::Print(p) = o { Some(p.as_str()) } else { None }).collect()
 }
 
+/// A program of one line that, when suspended, holds a breakpoint, an open loop, a function and a DATA cursor.
+fn one_line_program(rng: &mut crate::util::Rng) -> prog::Generated {
+    use crate::model::ast::*;
+    let mut stmts = vec![
+        Stmt::Data(vec![DataItem::Str("a".into(), false), DataItem::Str("b".into(), true), DataItem::Num("3".into())]),
+        Stmt::Def { name: "FNA".into(), params: vec!["X".into()], body: bin(Bin::Add, var("X"), num(1)) },
+        Stmt::Read(vec![LValue::scalar("A$")]),
+        Stmt::For { var: "I".into(), from: num(1), to: num(3), step: None },
+    ];
+    stmts.push(if rng.coin() { Stmt::Stop } else { Stmt::Input(LValue::scalar("X")) });
+    stmts.push(Stmt::Next("I".into()));
+    let mut g = prog::Generated::default();
+    g.prog.lines.push(Line { number: *rng.pick(&[0u64, 10, 65535, u64::MAX]), stmts });
+    g.replies = vec!["1".into()];
+    g.features.insert("one-line-program");
+    g
+}
+
 fn run_case(ctx: &Ctx, index: u64, rep: &mut Report) {
     let mut rng = ctx.rng(index);
     let opts = GenOpts { inputs: true, stops: true, kf_permille: 0, failure_permille: 100, ..GenOpts::default() };
     let g = prog::generate(&mut rng, &opts);
+    // one program in eight consists of a single line: the edit that deletes it empties the program
+    let g = if rng.chance(1, 8) { one_line_program(&mut rng) } else { g };
     let seed = rng.below(1 << 33);
     // ---- drive to a suspension point, recording concrete ops
     let mut sess = Session::new();
@@ -168,7 +189,7 @@ fn run_case(ctx: &Ctx, index: u64, rep: &mut Report) {
     let data_line = s0.data_cursor.as_ref().and_then(|d| d.0.get(d.1).and_then(|c| c.0.line));
     let other_line = *rng.pick(&lines);
     let new_line = loop {
-        let n = rng.below(lines.last().copied().unwrap_or(10) + 20);
+        let n = rng.below(lines.last().copied().unwrap_or(10).saturating_add(20));
         if !lines.contains(&n) {
             break n;
         }
@@ -211,6 +232,9 @@ fn run_case(ctx: &Ctx, index: u64, rep: &mut Report) {
     }
     let s1 = sess.snapshot();
     rep.count(&format!("suspension.{}", suspension));
+    if s0.map_lines.len() == 1 && deleted.is_some() {
+        rep.count("edit.deleted_the_only_line");
+    }
     rep.count(&format!("edit.{}", edit_kind));
     let had = [(s0.breakpoint.is_some(), "breakpoint"), (!s0.stack.is_empty(), "gosub-frame"), (!s0.loops.is_empty(), "open-loop"),
         (!s0.functions.is_empty(), "function"), (s0.data_cursor.as_ref().map(|d| d.1 > 0 || d.2 > 0).unwrap_or(false), "partial-data")];
@@ -330,7 +354,9 @@ fn run_case(ctx: &Ctx, index: u64, rep: &mut Report) {
     // a replaced line must be executed in its new form whichever way it is entered next
     if let Some(marker) = match edit_kind { "replace-breakpoint-line" => Some("bp\n"), "replace-other-line" => Some("replaced\n"), "add-new-line" => Some("new\n"), _ => None } {
         let n = abasic_core::verif_hooks::parse_line_number(&edit_text).map(|x| x.0).unwrap_or(0);
-        for entry in ["GOTO", "GOSUB"] {
+        // (a jump target is a numeric literal, i.e. an f64: line numbers above 2^53 cannot be named exactly by GOTO)
+        let entries: &[&str] = if n <= (1u64 << 53) { &["GOTO", "GOSUB"] } else { &[] };
+        for entry in entries.iter().copied() {
             if !probe(&format!("{} {}", entry, n), &move |r: &Res, p: &str| {
                 if matches!(r, Res::Panic(_)) { Some("panicked".into()) }
                 else if !p.starts_with(marker) { Some(format!("the line was replaced by one that prints {:?} first", marker)) } else { None }
@@ -366,6 +392,7 @@ fn finalize(_tier: Tier, rep: &mut Report) -> Finalize {
         floors: vec![
             ("probes".into(), 30_000),
             ("replaced_line_entered".into(), 3_000),
+            ("edit.deleted_the_only_line".into(), 300),
             ("rejected_edits_checked".into(), 500),
             ("had.breakpoint".into(), 2_000),
             ("had.gosub-frame".into(), 300),
